@@ -742,12 +742,39 @@ def compare_ctl(res: CompResult, runs: list[tuple[list[str], list[str], list[str
                                                   note="system replay: " + ops[0][:300]))
 
 
+def compare_sys(res: CompResult, runs: list[tuple[list[str], list[str], list[str]]]) -> None:
+    """T2 tie of the whole-system model (`Sys/System.lean`): the Lean model replays every step the simulation took — worker
+    main-thread steps, command deliveries, receiver steps, crashes, controller iterations — and must show the same worker
+    state (program point, current/next test, queue, channel fill levels) after every worker step and the same controller
+    observation after every iteration.  This ties the simulation's worker machine to the Lean worker model that T1 validates
+    against the real `remote.py` threads."""
+    from common import Disagreement, run_driver
+
+    lines = [l for ls, _, _ in runs for l in ls]
+    if not lines:
+        return
+    model = run_driver("sys", lines)
+    pos = 0
+    for ls, obs, ops in runs:
+        m = model[pos: pos + len(ls)]
+        pos += len(ls)
+        bad = next((i for i in range(len(ls)) if i < len(obs) and obs[i] != "*" and m[i] != obs[i]), None)
+        if bad is None:
+            res.hit("sys-trace-agrees")
+            continue
+        res.hit("sys-trace-disagrees")
+        if len([d for d in res.disagreements if d.component == "sys.system"]) < 6:
+            res.disagreements.append(Disagreement("sys.system", ls[: bad + 1], m[: bad + 1], obs[: bad + 1], bad,
+                                                  note="system replay: " + ops[0][:300]))
+
+
 def run(profiles: list[str], n_runs: int, seed: int, modes: list[str] | None = None) -> CompResult:
     res = CompResult(component="system[" + ",".join(profiles) + "]")
     res.rule = ("whole-system runs of the real DSession/scheduler/WorkerController stack under random fair schedules; a run is non-trivial if "
                 ">=2 workers executed tests and >=1 controller event overtook an older event of another worker; distinct by hash of (configuration, schedule)")
     rng = random.Random(f"{seed}-system-{'-'.join(profiles)}")
     ctl_runs: list[tuple[list[str], list[str], list[str]]] = []
+    sys_runs: list[tuple[list[str], list[str], list[str]]] = []
     for k in range(n_runs):
         profile = profiles[k % len(profiles)]
         cfg = PROFILES[profile](rng)
@@ -773,6 +800,7 @@ def run(profiles: list[str], n_runs: int, seed: int, modes: list[str] | None = N
         ops = [json.dumps({"cfg": cfg_to_json(cfg), "profile": profile}), *s.trace]
         check_run(s, profile, res, ops)
         ctl_runs.append((s.ctl_lines, s.ctl_obs, ops))
+        sys_runs.append((s.sys_lines, s.sys_obs, ops))
         busy = len({wid for _, wid in s.executions})
         if busy >= 2:
             res.distinct.add(h((cfg_to_json(cfg), s.trace)))
@@ -780,6 +808,7 @@ def run(profiles: list[str], n_runs: int, seed: int, modes: list[str] | None = N
         if len(res.samples) < 2 and busy >= 2:
             res.samples.append({"cfg": cfg_to_json(cfg), "schedule_head": s.trace[:30], "outcome": s.outcome})
     compare_ctl(res, ctl_runs)
+    compare_sys(res, sys_runs)
     return res
 
 
